@@ -216,11 +216,25 @@ func withChange(c *api.Context, change ingest.Change, function func(c *api.Conte
 	return function(&modified)
 }
 
-func addWorldWithChange(c *api.Context, id b6.FeatureID, change ingest.Change) (b6.Collection[b6.FeatureID, b6.FeatureID], error) {
-	// TODO: this should actually return a Change, to be applied at the top
-	// level
-	c.Worlds.DeleteWorld(id)
-	return change.Apply(c.Worlds.FindOrCreateWorld(id))
+// worldWithChange is the change returned by add-world-with-change: applying
+// it replaces the world with the given ID by a new world to which the given
+// change has been applied. It ignores the world it's applied to.
+type worldWithChange struct {
+	worlds ingest.Worlds
+	id     b6.FeatureID
+	change ingest.Change
+}
+
+func (w *worldWithChange) Apply(ingest.MutableWorld) (b6.Collection[b6.FeatureID, b6.FeatureID], error) {
+	w.worlds.DeleteWorld(w.id)
+	return w.change.Apply(w.worlds.FindOrCreateWorld(w.id))
+}
+
+func addWorldWithChange(c *api.Context, id b6.FeatureID, change ingest.Change) (ingest.Change, error) {
+	// Returned as a change, to be applied at the top level while no other
+	// request is reading or modifying the worlds, rather than modifying them
+	// here during evaluation.
+	return &worldWithChange{worlds: c.Worlds, id: id, change: change}, nil
 }
 
 // Export the changes that have been applied to the world to the given filename as yaml.
